@@ -100,14 +100,17 @@ def ok_map(m):
 
 def rand_map(rng, near=None):
     e = rand_ext(rng, near=near.e if near is not None else None)
-    lay = rng.randrange(5) if (near is None or rng.random() < 0.7) else near.lay
+    lay = rng.randrange(5) if (near is None or rng.random() < 0.5) else near.lay
     pv = rng.choice([DYN, DYN, 2, 4])
     return M(lay, pv, e)
 
 
 def rand_acc(rng, near=None):
-    if near is not None and rng.random() < 0.7:
-        return A(near.k if rng.random() < 0.8 else 1 - near.k, near.base if rng.random() < 0.8 else 1 - near.base, rng.random() < 0.5, near.ident if rng.random() < 0.7 else 1)
+    if near is not None and near.k == 1 and rng.random() < 0.5:
+        return A(near.k, near.base, near.const, near.ident)          # user accessors convert only to themselves
+    if near is not None and rng.random() < 0.8:
+        return A(near.k if rng.random() < 0.85 else 1 - near.k, near.base if rng.random() < 0.85 else 1 - near.base,
+                 (near.const or rng.random() < 0.5) if rng.random() < 0.8 else False, near.ident if rng.random() < 0.7 else 1)
     return A(0 if rng.random() < 0.75 else 1, rng.randrange(2), rng.random() < 0.4, rng.randrange(3))
 
 
